@@ -162,7 +162,7 @@ Proof. unfold WInv, init, wminit, wsinit. cbn. repeat split; try discriminate. Q
 Lemma excused_six (b1 b2 b3 b4 b5 b6 : bool) :
   excused ((if b1 then [] else [CL_PROTECTED]) ++ (if b2 then [] else [CL_FLAG]) ++ (if b3 then [] else [CL_UNADDRESSED]) ++
            (if b4 then [] else [CL_ACCEPT]) ++ (if b5 then [] else [CL_ERR]) ++ (if b6 then [] else [CL_OK]))
-          [CL_PROTECTED; CL_FLAG; CL_UNADDRESSED; CL_ACCEPT; CL_ERR; CL_OK] = true.
+          [CL_PROTECTED; CL_FLAG; CL_UNADDRESSED; CL_ACCEPT; CL_ERR; CL_OK; CL_OVERLAP] = true.
 Proof. destruct b1, b2, b3, b4, b5, b6; reflexivity. Qed.
 
 Lemma excused_full (b1 b2 b4 : bool) :
@@ -335,3 +335,30 @@ Qed.
 
 Theorem wrun_accepted : forall ops, accepted (wjudge wminit wsinit (snd (run init ops))) = true.
 Proof. intros ops. apply wrun_accepted_from. apply WInv_init. Qed.
+
+(* one in-scope remote write that is not a full write, as the store sees it: everything the
+   monitors of C02 and C04 need *)
+Lemma update_data_remote s u :
+  wf_schema (sch s) = true -> lwf (sch s) (storel s) -> ordered (sch s) (storel s) = true ->
+  negb (direct s) && is_full true u = false -> wf_update (sch s) false u = true ->
+  let r := update_data s true true u in
+  (exists d, snd r = [Res 0; Ret d] /\ storel (fst r) = d /\ d = spec_write (sch s) false u (storel s) /\
+             lwf (sch s) d /\ ordered (sch s) d = true /\ accept_ok (sch s) false 0 u (storel s) = true) \/
+  (exists c, snd r = [Res c] /\ c <> 0%N /\ fst r = s /\ accept_ok (sch s) false c u (storel s) = true).
+Proof.
+  intros Hwf Hl Ho Hnf Hu r. subst r. unfold update_data. rewrite Hnf.
+  change (match store s with Some l => l | None => [] end) with (storel s).
+  destruct (update_list (sch s) true (storel s) (u_new u) (u_fp u) (u_fd u)) as [[d ok]|] eqn:E.
+  - destruct (remote_write (sch s) Hwf _ _ _ _ Hl Ho Hu E) as [Hok Hd]. cbv zeta in Hok. destruct ok.
+    + left. exists d. cbn [fst snd storel store]. specialize (Hd eq_refl). subst d. symmetry in Hok.
+      apply andb_true_iff in Hok. destruct Hok as [Hk1 Hk2]. rewrite Hk1 in Hk2. apply andb_true_iff in Hk2. destruct Hk2 as [Hk2 Hk3].
+      split; [reflexivity|]. split; [reflexivity|]. split; [reflexivity|].
+      destruct (written_wf (sch s) Hwf _ u Hl Ho Hu) as [Hl2 Ho2]. split; [exact Hl2|]. split; [exact Ho2|].
+      Transparent accept_ok. unfold accept_ok. Opaque accept_ok. cbn [N.eqb].
+      rewrite accepted_changeable by assumption. reflexivity.
+    + right. exists 1%N. cbn [fst snd]. split; [reflexivity|]. split; [discriminate|]. split; [reflexivity|].
+      Transparent accept_ok. unfold accept_ok. Opaque accept_ok. cbn [N.eqb negb orb andb].
+      symmetry in Hok. rewrite K4 by assumption. reflexivity.
+  - right. exists 2%N. cbn [fst snd]. split; [reflexivity|]. split; [discriminate|]. split; [reflexivity|].
+    Transparent accept_ok. unfold accept_ok. Opaque accept_ok. reflexivity.
+Qed.
